@@ -1468,7 +1468,8 @@ fn run_request(s: &mut Session, label: &str, data: &[u8], req: &Req, trust: Trus
             }
             budget -= 1;
             s.case("colr-tree-reader", format!("c17.colr.tree {} G {old}", hex(colr)), glyph_tree(&oc, false, *old));
-            if let Some(sc) = &sc {
+            // (the promise is about well-formed sources: an unsorted BaseGlyphList stays unsorted)
+            if let (Some(sc), Trust::WellFormed) = (&sc, trust) {
                 if sc.version() >= 1 {
                     s.case("colr-tree-expect", format!("c17.colr.expect {} G {old} {}", hex(colr), plan_args(&pv, &cv)), glyph_tree(sc, false, *new));
                 }
@@ -1476,10 +1477,50 @@ fn run_request(s: &mut Session, label: &str, data: &[u8], req: &Req, trust: Trus
         }
         for (old, new) in cv.colrv1_layers.iter().take(4) {
             s.case("colr-tree-reader", format!("c17.colr.tree {} Y {old}", hex(colr)), glyph_tree(&oc, true, *old));
-            if let Some(sc) = &sc {
+            if let (Some(sc), Trust::WellFormed) = (&sc, trust) {
                 if sc.version() >= 1 {
                     s.case("colr-tree-expect", format!("c17.colr.expect {} Y {old} {}", hex(colr), plan_args(&pv, &cv)), glyph_tree(sc, true, *new));
                 }
+            }
+        }
+    }
+    // ---- correspondence: the CPAL reader model (`color`, palette types / labels / entry labels) against
+    //      read-fonts, on the original and on the subset table
+    if corr {
+        let sub_cpal: Option<Vec<u8>> = sub_font.and_then(|sub| FontRef::new(sub).ok()).and_then(|sf| table(&sf, b"CPAL").map(|t| t.to_vec()));
+        for t in [cpal_t.map(|t| t.to_vec()), sub_cpal].into_iter().flatten() {
+            if t.len() > 4000 {
+                continue;
+            }
+            if let Ok(c) = <read_fonts::tables::cpal::Cpal as read_fonts::FontRead>::read(read_fonts::FontData::new(&t)) {
+                let np = c.num_palettes() as usize;
+                let ne = c.num_palette_entries() as usize;
+                if np * ne > 600 {
+                    continue;
+                }
+                let recs = c.color_records_array().and_then(|r| r.ok());
+                let mut cols = vec![];
+                for p in 0..np {
+                    for e in 0..ne {
+                        let first = c.color_record_indices()[p].get() as usize;
+                        if let Some(r) = recs.and_then(|r| r.get(first + e)) {
+                            cols.push(format!("{p}:{e}={:02x}{:02x}{:02x}{:02x}", r.blue(), r.green(), r.red(), r.alpha()));
+                        }
+                    }
+                }
+                let opt = |v: Option<String>| v.unwrap_or("x".into());
+                let types = c.palette_types_array().and_then(|x| x.ok());
+                let labels = c.palette_labels_array().and_then(|x| x.ok());
+                let elabels = c.palette_entry_labels_array().and_then(|x| x.ok());
+                // (raw 32 bits: the typed accessor truncates to the two defined flags)
+                let tl: Vec<String> = (0..np).map(|i| opt(types.and_then(|a| a.get(i)).map(|v| u32::from_be_bytes(v.be_bytes().try_into().unwrap_or([0; 4])).to_string()))).collect();
+                let ll: Vec<String> = (0..np).map(|i| opt(labels.and_then(|a| a.get(i)).map(|v| v.get().to_string()))).collect();
+                let el: Vec<String> = (0..ne).map(|i| opt(elabels.and_then(|a| a.get(i)).map(|v| v.get().to_u16().to_string()))).collect();
+                s.case(
+                    "cpal-reader",
+                    format!("c17.cpal.read {} {np} {ne}", hex(&t)),
+                    format!("{} T {} L {} E {}", if cols.is_empty() { "-".to_string() } else { cols.join(" ") }, tl.join(" "), ll.join(" "), el.join(" ")),
+                );
             }
         }
     }
